@@ -408,8 +408,8 @@ def run_e2e(kind, table, history, net_clock=None):
 
             def on_grant(i, a, obj, ports):
                 for path, leaf, port, eff_d in ports:
-                    box["granted"].append((i, path, leaf, port))
                     tag = f"b{i}_" + "_".join(path)
+                    box["granted"].append((i, path, leaf, port, tag if eff_d == "-" else None))
                     if eff_d == "-":
                         d = R.PORT_DIR[leaf["dir"]]
                         if d == "io" and leaf["kind"] == "diff" and ice40:
@@ -475,6 +475,7 @@ def run_e2e(kind, table, history, net_clock=None):
                 res["errs"].append(("tcl-quote", f"top{suffix}: the quoted word {raw} contains a live substitution "
                                                  f"(unescaped [ or $ after decoding the backslash escapes)"))
         top_ports = R.parse_top_ports(cap.rtlil)
+        top_cells = R.parse_top_cells(cap.rtlil)
     except (R.ParseError, KeyError, TypeError, ValueError) as e:
         res["errs"].append(("unparsable", f"constraint file / netlist not parsable: {type(e).__name__}: {str(e)[:80]}"))
         return res
@@ -488,18 +489,36 @@ def run_e2e(kind, table, history, net_clock=None):
         return res
     # observed: name of the IOPort objects handed out for granted leaves; declared: their pins (reference)
     cmap = R.connector_map(table)
+    # Which top-level port of the platform's own RTLIL (names as the netlist has them, `$N` suffixes included) belongs to
+    # which granted leaf: through the netlist structure for dir="-" leaves (the top-level wires connected to the buffer
+    # submodule this design instantiated for that leaf; a wire is the leaf's io / p / n half if it carries that I/O
+    # port's name, possibly made unique), by name for the deprecated pin path (names must then be unique).
     decl, clocks, decl_attrs = {}, {}, {}
     resnode = {(r["name"], r["number"]): r["node"] for r in table["resources"]}
-    for i, path, leaf, port in box["granted"]:
+    top_names_all = {n for n, _w in top_ports}
+    for i, path, leaf, port, tag in box["granted"]:
         pins = R.leaf_pins(leaf, cmap)
         halves = [("io", port.io)] if leaf["kind"] == "pins" else [("p", port.p), ("n", port.n)]
+        want_attrs_leaf = R.expected_attrs(resnode[history[i]["name"], history[i]["number"]], path)
+        first_wire = None
         for half, iop in halves:
-            if iop.name in decl:
-                res["errs"].append(("duplicate-port-name", f"two granted ports are both called {iop.name}"))
-            decl[iop.name] = pins[half]
-            decl_attrs[iop.name] = R.expected_attrs(resnode[history[i]["name"], history[i]["number"]], path)
-        if leaf.get("clock_mhz"):
-            clocks[halves[0][1].name] = R.clock_hz(leaf["clock_mhz"])
+            if tag is not None:
+                wires = sorted({w for w in top_cells.get(tag, []) if w in top_names_all and R.strip_dedup(w) == iop.name})
+                if len(wires) > 1:
+                    res["errs"].append(("port-mapping", f"buffer {tag} is connected to several top-level ports {wires}"))
+                    continue
+                if not wires:
+                    continue                    # this half is not a top-level port on this platform (e.g. n side of an input pair)
+                wire = wires[0]
+            else:
+                wire = iop.name
+            if wire in decl:
+                res["errs"].append(("duplicate-port-name", f"two granted ports are both called {wire} in the netlist"))
+            decl[wire] = pins[half]
+            decl_attrs[wire] = want_attrs_leaf
+            first_wire = first_wire or wire
+        if leaf.get("clock_mhz") and first_wire is not None and (tag is None or halves[0][1].name == R.strip_dedup(first_wire)):
+            clocks[first_wire] = R.clock_hz(leaf["clock_mhz"])
     want, want_attrs = {}, {}
     for name, width in top_ports:
         if name not in decl:
@@ -593,7 +612,8 @@ def w_e2e(task):
     for table, maxlen, *rest in tables:
         nv = 0
         net_clock = rest[0] if rest else None
-        for hist in e_histories(kind, table, maxlen, pin_path):
+        table_pin_path = pin_path and not (len(rest) > 1 and rest[1].get("no_pin_path"))
+        for hist in e_histories(kind, table, maxlen, table_pin_path):
             r = run_e2e(kind, table, hist, net_clock)
             cov["e2e_builds"] += 1
             cov["e2e_port_bits_checked"] += r["bits"]
@@ -689,6 +709,9 @@ def families(rep):
     # dead-end connector chains end to end (every 37th XC table; thorough: every 7th): the refused resource must leave no
     # trace in the constraint files, which may only name physical pins
     fam["E"] = (fam["E"][0] + [(t, 2) for t in fam["XC"][0][5::37 if q else 7]], None)
+    # EN (both tiers, complete): different resources whose ports get the same generated name, requested in every order
+    # (dir="-"), on every platform / toolchain that renders
+    fam["EN"] = ([(t, 2, None, {"no_pin_path": True}) for t in G.en_tables()], None)
     return fam
 
 
@@ -711,6 +734,8 @@ def run(rep):
     for kind in TEMPLATE_PLATFORMS:
         for ch in chunks(fam["ET"][0], 15):
             tasks.append(("e2e", (kind, ch, True)))
+    for kind in PLATFORM_SPECS:
+        tasks.append(("e2e", (kind, fam["EN"][0], True)))
     tasks = rotate(tasks, rep.seed)
     allflags, by_family, viols, samples = set(), {}, [], {}
     for tag, part in pmap(_dispatch, tasks, rep.procs):
